@@ -89,12 +89,16 @@ func fetchProfiles(s *source, o *plugin.Options) (*profile.Profile, error) {
 	}
 
 	// Save a copy of the merged profile if there is at least one remote source.
+	// Not being able to save it is not a failure to fetch.
+	var dir string
 	if save {
-		dir, err := setTmpDir(o.UI)
-		if err != nil {
-			return nil, err
+		var err error
+		if dir, err = setTmpDir(o.UI); err != nil {
+			o.UI.PrintErr("Could not save profile: ", err)
+			save = false
 		}
-
+	}
+	if save {
 		prefix := "pprof."
 		if len(p.Mapping) > 0 && p.Mapping[0].File != "" {
 			prefix += filepath.Base(p.Mapping[0].File) + "."
